@@ -123,7 +123,8 @@ MAP = {
         K('map_grt_assert_x', 'Map.get_rect_tiles', ('assert', 0), ['x'], 'bool'),
         K('map_grt_assert_w', 'Map.get_rect_tiles', ('assert', 1), ['width'], 'bool'),
         K('map_grt_assert_h', 'Map.get_rect_tiles', ('assert', 2), ['height'], 'bool'),
-        K('map_grt_assert_y', 'Map.get_rect_tiles', ('assert', 3), ['y', 'height', 'self_gfx_is_none:bool'], 'bool'),
+        K('map_grt_assert_y', 'Map.get_rect_tiles', ('assert', 3), ['y'], 'bool'),
+        K('map_grt_assert_g', 'Map.get_rect_tiles', ('assert', 4), ['y', 'height', 'self_gfx_is_none:bool'], 'bool'),
         K('map_grt_offedge', 'Map.get_rect_tiles', ('if', 0), ['tile_y', 'tile_x'], 'bool'),
         K('map_srt_skip', 'Map.set_rect_tiles', ('if', 0), ['tile_y', 'y', 'tile_x', 'x'], 'bool'),
         K('map_srt_cx', 'Map.set_rect_tiles', ('call_arg', 'set_cell', 0, 0), ['tile_x', 'x']),
@@ -238,6 +239,64 @@ def p8scii_extra(mod, tree, src):
 
 P8SCII = {'file': 'T_p8scii', 'kernels': [], 'extra': p8scii_extra}
 
+# ----------------------------------------------------------------------------- p8png.py
+PD = 'get_picodata_from_pngdata'
+PN = 'get_pngdata_from_picodata'
+
+
+def p8png_extra(mod, tree, src):
+    import py2gallina as P
+    # picodata join order in P8PNGFormatter.to_file: game.<sec>.to_bytes() ... code_bytes, version
+    fn = P.find_function(tree, 'P8PNGFormatter.to_file')
+    order = {'gfx': 0, 'map': 1, 'gff': 2, 'music': 3, 'sfx': 4}
+    ids = None
+    for n in P.ordered_nodes(fn):
+        if isinstance(n, ast.Assign) and isinstance(n.targets[0], ast.Name) and n.targets[0].id == 'picodata':
+            call = n.value
+            try:
+                elts = call.args[0].elts
+                ids = []
+                for e in elts[:5]:
+                    assert e.func.attr == 'to_bytes' and e.func.value.value.id == 'game'
+                    ids.append(order[e.func.value.attr])
+                assert isinstance(elts[5], ast.Name) and elts[5].id == 'code_bytes'
+                assert ast.unparse(elts[6]) == 'bytes((game.version,))'
+                assert len(elts) == 7 and ast.unparse(call.func) == "b''.join"
+            except Exception:
+                ids = None
+            break
+    t = ('Definition png_join_order : list Z := [%s].\n' % '; '.join(map(str, ids)) if ids is not None
+         else 'Definition png_join_order := untranslatable__picodata_join.\n')
+    # from_file: which raw field feeds which section
+    return t
+
+
+P8PNG = {
+    'file': 'K_p8png',
+    'kernels': (
+        [K('pd_idx_%d' % k, PD, ('aug_idx', k), ['row_i', 'width', 'col_i']) for k in range(4)] +
+        [K('pd_val_%d' % k, PD, ('aug_val', k), ['row:arr', 'col_i', 'attrs_planes']) for k in range(4)] +
+        [K('pn_inrange', PN, ('if', 0), ['row_i', 'width', 'col_i', 'len_picodata'], 'bool'),
+         K('pn_byte_idx', PN, ('idx_of', ('assign', 'picobyte', 0)), ['row_i', 'width', 'col_i'])] +
+        [K('pn_idx_%d' % k, PN, ('store_idx', k), ['col_i', 'planes']) for k in range(4)] +
+        [K('pn_val_%d' % k, PN, ('store_val', k), ['row:arr', 'col_i', 'planes', 'picobyte']) for k in range(4)] +
+        [K('pn_copy_idx', PN, ('store_idx', 4), ['col_i', 'planes', 'n']),
+         K('pn_copy_val', PN, ('store_val', 4), ['row:arr', 'col_i', 'planes', 'n']),
+         K('gcb_full_len', 'get_code_from_bytes', ('assign', 'code_length', 1)),
+         K('gbc_use_compressed', 'get_bytes_from_code', ('if', 0), ['len_compressed_bytes', 'len_code'], 'bool'),
+         K('gbc_len_hi', 'get_bytes_from_code', ('elt', ('call_arg', 'bytes', 0, 0), 0), ['len_code']),
+         K('gbc_len_lo', 'get_bytes_from_code', ('elt', ('call_arg', 'bytes', 0, 0), 1), ['len_code']),
+         K('gbc_area_size', 'get_bytes_from_code', ('call_arg', 'bytearray', 0, 0)),
+         K('gbc_magic', 'get_bytes_from_code', ('elt', ('call_arg', 'join', 0, 0), 0), [], 'bytes'),
+         K('gbc_pad', 'get_bytes_from_code', ('elt', ('call_arg', 'join', 0, 0), 2), [], 'bytes'),
+        ] +
+        [K('raw_%s_%s' % (a, w), 'get_raw_data_from_p8png_file', ('slice_' + w, ('attr_assign', a, 0)))
+         for a in ('gfx', 'p8map', 'gfx_props', 'song', 'sfx', 'codedata') for w in ('lo', 'hi')] +
+        [K('raw_version_idx', 'get_raw_data_from_p8png_file', ('idx_of', ('attr_assign', 'version', 0)))]
+    ),
+    'extra': p8png_extra,
+}
+
 MODULES = [
     ('pico8.game.game', 'pico8/game/game.py', GAME),
     ('pico8.gfx.gfx', 'pico8/gfx/gfx.py', GFX),
@@ -246,6 +305,7 @@ MODULES = [
     ('pico8.sfx.sfx', 'pico8/sfx/sfx.py', SFX),
     ('pico8.music.music', 'pico8/music/music.py', MUSIC),
     ('pico8.lua.lua', 'pico8/lua/lua.py', P8SCII),
+    ('pico8.game.formatter.p8png', 'pico8/game/formatter/p8png.py', P8PNG),
 ]
 
 # further kernel/table specs live in gen/kernels_*.py, each exposing MODULES (same format)
